@@ -452,6 +452,11 @@ def classify_failure(an, t, st):
                         if pay is None or pay == ("agg", "tuple", None, (a, b)):
                             bn = norm(buf)
                             return ("read", a, b) if _is_filebuf(bn) else ("slice", bn, a, b)
+                    if rn[0] == "agg" and len(rn[3]) == 1 and "RangeFrom" in str(rn[1]):
+                        # buf.get(a..) is None: the tail [a, len) does not exist
+                        bn = norm(buf)
+                        b = ("len", bn)
+                        return ("read", rn[3][0], b) if _is_filebuf(bn) else ("slice", bn, rn[3][0], b)
         guards = tuple(sorted(((f[0], norm(f[1])) for f in st.facts if f[0] in ("true", "false") and f[1].op == "bin"), key=repr))
         return ("explicit", variant, tuple(norm(x) for x in inner.args[4]), guards)
     return ("other", norm(e))
